@@ -134,6 +134,8 @@ def judge(cfg, events, results, props=None):
         if ev[0] == "g":
             seen_texts.add(ev[1])
         if res[0] == "err":
+            if None in (virt.pos["X"], virt.pos["Y"], virt.pos["Z"]):
+                break          # C09 speaks of commands issued after the axes have been homed
             viol("C09", i, "exception %s on %r" % (res[1], ev))
             # a failure while a synthesised command is being rendered: the command (and with it the
             # intended values) never reaches the printer
